@@ -44,7 +44,7 @@ ASSUMPTIONS = [
     "fresh-interpreter replay under another PYTHONHASHSEED is done by the "
     "driver's determinism self-test on a sample",
 ]
-FAULT_KINDS = ["snapped_coordinates", "repeat_vector", "reused_receiver",
+FAULT_KINDS = ["same_name_other_template", "snapped_coordinates", "repeat_vector", "reused_receiver",
                "slack_pairs>=2", "second_objective_object",
                "reevaluate_after_other_instance"]
 PROBES = ["slack_cut_refused_for_area", "direction_switched_after_wrap",
@@ -139,7 +139,17 @@ def _dims(template: dict) -> tuple[int, int]:
     return n, min(int(inst.lower_bound_bins), n)
 
 
-def generate(rng: random.Random, batch: dict) -> dict:
+def generate(rng: random.Random, batch: dict, depth: int = 0) -> dict:
+    doc = _generate(rng, batch)
+    if depth == 0 and "resource" not in doc["template"] \
+            and rng.random() < 0.12:
+        twin = _generate(rng, batch)
+        if "resource" not in twin["template"]:
+            doc["twin"] = twin
+    return doc
+
+
+def _generate(rng: random.Random, batch: dict) -> dict:
     template = gen_template(rng)
     n_items, min_bins = _dims(template)
     k = rng.choice([0, 1, 2, 2, 3, 8])
@@ -263,6 +273,31 @@ def _find_witness(W, H, items, min_bins, seed: int, budget: int):
 
 
 def execute(doc: dict) -> dict:
+    """Optionally followed by a twin: a different template with the SAME name,
+    with its own space, decoder and objective objects."""
+    tdoc0 = doc["template"]
+    name = None if "resource" in tdoc0 else "t" + core.digest(tdoc0)[:10]
+    res = _execute_one(doc, name)
+    twin = doc.get("twin")
+    if twin is not None and name is not None and res["violation"] is None:
+        r2 = _execute_one(twin, name)
+        res["events"].append(["twin"])
+        res["events"].extend(r2["events"])
+        for key in ("faults", "probes"):
+            for k, v in r2[key].items():
+                res[key][k] = res[key].get(k, 0) + v
+        res["states"].extend(r2["states"])
+        res["ops"] += r2["ops"]
+        res["sim_time"] += r2["sim_time"]
+        res["nontrivial"] = res["nontrivial"] or r2["nontrivial"]
+        core.bump(res["faults"], "same_name_other_template")
+        if r2["violation"] is not None:
+            res["violation"] = r2["violation"]
+            res["violation"]["in_twin"] = True
+    return res
+
+
+def _execute_one(doc: dict, tname) -> dict:
     import numpy as np
     from moptipyapps.binpacking2d.instance import Instance
     from moptipyapps.binpacking2d.instgen.errors import Errors
@@ -276,7 +311,7 @@ def execute(doc: dict) -> dict:
     tdoc = doc["template"]
     template = packgen.build_instance(
         tdoc if "resource" in tdoc
-        else {**tdoc, "name": "t" + core.digest(tdoc)[:10]})
+        else {**tdoc, "name": tname or ("t" + core.digest(tdoc)[:10])})
     core.bump(res["probes"], "template:shipped" if "resource" in tdoc
               else "template:synthetic")
     space = InstanceSpace(template)
@@ -521,6 +556,10 @@ def execute(doc: dict) -> dict:
 # ------------------------------------------------------------------ shrinking
 
 def reductions(doc: dict):
+    if doc.get("twin") is not None:
+        yield {k: v for k, v in doc.items() if k != "twin"}
+        for cand in reductions(doc["twin"]):
+            yield {**doc, "twin": cand}
     ops = doc["ops"]
     for cand in core.list_deletions(ops, 1):
         if any(o["op"] == "decode" for o in cand):
